@@ -8,7 +8,7 @@ use std::collections::{BTreeMap, HashSet};
 use std::fmt::Debug;
 use std::hash::{Hash, Hasher};
 use std::path::PathBuf;
-use std::sync::atomic::{AtomicBool, AtomicU64, Ordering};
+use std::sync::atomic::{AtomicBool, AtomicU64, AtomicUsize, Ordering};
 use std::sync::Mutex;
 use std::time::Instant;
 
@@ -623,16 +623,204 @@ fn wd_now_fast() -> u64 {
     // Instant::now is ~20ns; fine at our rates
     wd_now()
 }
+// ---------------------------------------------------------------------------------------------
+// case registry: which input is each checking thread working on right now (hang / runaway-memory detector)
+// ---------------------------------------------------------------------------------------------
+const SLOT_N: usize = 256;
+const SLOT_BUF: usize = 70_000;
+pub const CASE_TAGS: [&str; 3] = ["frame", "stream", "text"];
+struct Slot {
+    gen: AtomicU64,
+    len: AtomicUsize,
+    tag: AtomicUsize,
+    start_ms: AtomicU64,
+    cases: AtomicU64,
+    buf: std::cell::UnsafeCell<[u8; SLOT_BUF]>,
+}
+unsafe impl Sync for Slot {}
+#[allow(clippy::declare_interior_mutable_const)]
+const SLOT_INIT: Slot = Slot { gen: AtomicU64::new(0), len: AtomicUsize::new(0), tag: AtomicUsize::new(0), start_ms: AtomicU64::new(0), cases: AtomicU64::new(0), buf: std::cell::UnsafeCell::new([0u8; SLOT_BUF]) };
+static SLOTS: [Slot; SLOT_N] = [SLOT_INIT; SLOT_N];
+static NEXT_SLOT: AtomicUsize = AtomicUsize::new(0);
+thread_local! {
+    static MY_SLOT: std::cell::Cell<usize> = const { std::cell::Cell::new(usize::MAX) };
+}
+pub struct CaseGuard(usize);
+/// Announce the input the calling thread is about to hand to the code under test (one level: nested guards are no-ops).
+/// The watchdog reads the registry when a case does not come back or memory runs away.
+pub fn case_guard(tag: &'static str, bytes: &[u8]) -> CaseGuard {
+    if !WD_ON.load(Ordering::Relaxed) || bytes.is_empty() || bytes.len() > SLOT_BUF {
+        return CaseGuard(usize::MAX);
+    }
+    let i = MY_SLOT.with(|c| {
+        if c.get() == usize::MAX {
+            c.set(NEXT_SLOT.fetch_add(1, Ordering::Relaxed) % SLOT_N);
+        }
+        c.get()
+    });
+    let s = &SLOTS[i];
+    if s.len.load(Ordering::Relaxed) != 0 {
+        return CaseGuard(usize::MAX);
+    }
+    s.gen.fetch_add(1, Ordering::AcqRel); // odd: being written
+    unsafe {
+        std::ptr::copy_nonoverlapping(bytes.as_ptr(), (*s.buf.get()).as_mut_ptr(), bytes.len());
+    }
+    s.tag.store(CASE_TAGS.iter().position(|t| *t == tag).unwrap_or(0), Ordering::Relaxed);
+    s.start_ms.store(wd_now(), Ordering::Relaxed);
+    s.cases.fetch_add(1, Ordering::Relaxed);
+    s.len.store(bytes.len(), Ordering::Release);
+    s.gen.fetch_add(1, Ordering::AcqRel); // even: stable
+    CaseGuard(i)
+}
+impl Drop for CaseGuard {
+    fn drop(&mut self) {
+        if self.0 != usize::MAX {
+            SLOTS[self.0].len.store(0, Ordering::Release);
+        }
+    }
+}
+fn slot_snapshot(i: usize) -> Option<(usize, Vec<u8>, u64)> {
+    let s = &SLOTS[i];
+    let g1 = s.gen.load(Ordering::Acquire);
+    let len = s.len.load(Ordering::Acquire);
+    if g1 % 2 == 1 || len == 0 || len > SLOT_BUF {
+        return None;
+    }
+    let v = unsafe { (&(*s.buf.get()))[..len].to_vec() };
+    let (tag, start) = (s.tag.load(Ordering::Relaxed), s.start_ms.load(Ordering::Relaxed));
+    if s.gen.load(Ordering::Acquire) != g1 || s.len.load(Ordering::Acquire) != len {
+        return None;
+    }
+    Some((tag, v, start))
+}
+fn rss_bytes() -> u64 {
+    std::fs::read_to_string("/proc/self/statm").ok().and_then(|t| t.split_whitespace().nth(1).and_then(|p| p.parse::<u64>().ok())).map(|p| p * 4096).unwrap_or(0)
+}
+/// A case that does not come back (or memory that runs away) is not judged here, on a loaded machine, by wall-clock: the input is
+/// saved and this process is replaced by the judge (`check <ID> --judge-hang <file>`), which re-executes the one input alone under a
+/// CPU-time and an address-space limit.
+fn suspect(id: &str, tier: &str, i: usize, why: &str) {
+    let Some((tag, bytes, start)) = slot_snapshot(i) else { return };
+    let cases: u64 = SLOTS.iter().map(|s| s.cases.load(Ordering::Relaxed)).sum();
+    let body = json!({
+        "property": id, "sub": "isolated-input", "what": format!("suspected:{why}"), "tier": tier,
+        "detail": format!("a case of {} bytes ({}) had not returned after {} ms ({why}); {} guarded cases had been started by then", bytes.len(), CASE_TAGS[tag], wd_now().saturating_sub(start), cases),
+        "input": {"tag": CASE_TAGS[tag], "hex": hex(&bytes), "cases_started": cases},
+    });
+    let dir = format!("{VERIF_ROOT}/replays/found");
+    let _ = std::fs::create_dir_all(&dir);
+    let path = format!("{dir}/{id}-isolated_input-{:016x}.json", fnv64(&bytes));
+    let _ = std::fs::write(&path, serde_json::to_string_pretty(&body).unwrap());
+    eprintln!("[{id}] {why}: input saved to {path}; judging it alone under a CPU-time and a memory limit");
+    use std::os::unix::process::CommandExt;
+    let exe = std::env::current_exe().expect("current exe");
+    let e = std::process::Command::new(exe).args([id, "--tier", tier, "--judge-hang", &path]).exec();
+    println!("INCONCLUSIVE property={id} reason=cannot-start-the-judge ({e})");
+    std::process::exit(2);
+}
+
+/// `check <ID> --judge-hang <file>`: re-execute one saved input alone (`--replay`) in a child limited to 120 s of CPU time and 8 GB of
+/// address space (normal cost: milliseconds, megabytes). Killed by a limit / aborted => the property's "never aborts ... or fails to
+/// terminate" is violated (CPU time of an isolated run, not wall-clock: machine load cannot cause it). Passing alone => inconclusive.
+pub fn judge_hang(id: &str, tier: &str, seed: u64, path: &str, replay_mode: bool) -> i32 {
+    let t0 = Instant::now();
+    let exe = std::env::current_exe().expect("current exe");
+    let cpu_s: u64 = std::env::var("VERIF_JUDGE_CPU_S").ok().and_then(|v| v.parse().ok()).unwrap_or(120);
+    let out = std::process::Command::new("sh").arg("-c").arg(format!("ulimit -t {cpu_s}; ulimit -v 8000000; exec \"$0\" \"$@\"")).arg(&exe).args([id, "--tier", tier, "--replay", path]).env("VERIF_ISOLATED", "1").output();
+    let out = match out {
+        Ok(o) => o,
+        Err(e) => {
+            println!("INCONCLUSIVE property={id} reason=judge-could-not-run ({e})");
+            return 2;
+        }
+    };
+    use std::os::unix::process::ExitStatusExt;
+    let stdout = String::from_utf8_lossy(&out.stdout).to_string();
+    let verdict: Option<String> = match (out.status.code(), out.status.signal()) {
+        (_, Some(sig)) => Some(format!("killed by signal {sig} ({})", match sig { 24 | 9 => "CPU-time limit: the input alone does not terminate within the CPU-time limit", 6 => "abort: memory exhausted under an 8 GB limit, or an abort in the code", 11 => "segmentation fault", _ => "signal" })),
+        (Some(134), _) => Some("aborted (memory exhausted under an 8 GB limit, or an abort in the code)".into()),
+        (Some(137), _) | (Some(152), _) => Some(format!("killed by the CPU-time limit: the input alone does not terminate within {cpu_s} s of CPU")),
+        (Some(1), _) if stdout.contains("VIOLATION property=") => Some("the input alone violates the property (see the replay output)".into()),
+        _ => None,
+    };
+    let saved: Value = std::fs::read_to_string(path).ok().and_then(|t| serde_json::from_str(&t).ok()).unwrap_or(Value::Null);
+    let cases = saved["input"]["cases_started"].as_u64().unwrap_or(0);
+    let ev = |violations: u32, note: &str| {
+        let ev = json!({
+            "property_id": id, "tier": tier, "seed": seed, "level": "exploration",
+            "coverage": {
+                "evaluations": cases, "distinct_nontrivial": 0,
+                "rule": format!("run cut short by the hang / runaway-memory detector after {cases} guarded cases; the suspected input was re-executed alone under RLIMIT_CPU 120 s / RLIMIT_AS 8 GB: {note}. distinct_nontrivial is not measured in this path (counted as 0)"),
+                "samples": [saved["input"].clone()], "exhaustive": false,
+            },
+            "assumptions": ["non-termination is decided by the CPU time of an isolated re-execution of one input, never by wall-clock"],
+            "wall_s": t0.elapsed().as_secs_f64(), "violations": violations,
+        });
+        let _ = std::fs::create_dir_all(format!("{VERIF_ROOT}/evidence"));
+        let _ = std::fs::write(format!("{VERIF_ROOT}/evidence/{id}.json"), serde_json::to_string_pretty(&ev).unwrap());
+    };
+    if replay_mode {
+        return match verdict {
+            Some(v) => {
+                println!("replay: does-not-terminate-or-aborts :: {v}");
+                println!("VIOLATION property={id} replay={path}");
+                1
+            }
+            None => {
+                println!("REPLAY-PASS property={id} file={path}");
+                0
+            }
+        };
+    }
+    match verdict {
+        Some(v) => {
+            eprintln!("[{id}] violation in isolated-input: does-not-terminate-or-aborts :: {v} :: {}", truncate(&saved["detail"].as_str().unwrap_or("").to_string(), 300));
+            ev(1, &v);
+            println!("VIOLATION property={id} replay={path}");
+            1
+        }
+        None => {
+            ev(0, "it passes alone");
+            println!("INCONCLUSIVE property={id} reason=a-case-stalled-in-the-run-but-passes-alone (machine load?) input={path}");
+            2
+        }
+    }
+}
+
 pub fn start_watchdog(id: &str, total_budget_s: u64, stall_budget_s: u64) {
+    start_watchdog_tier(id, "quick", total_budget_s, stall_budget_s)
+}
+pub fn start_watchdog_tier(id: &str, tier: &str, total_budget_s: u64, stall_budget_s: u64) {
     let _ = WD_START.set(Instant::now());
     WD_ON.store(true, Ordering::SeqCst);
     WD_LAST.store(0, Ordering::SeqCst);
     let id = id.to_string();
+    let tier = tier.to_string();
+    let case_stall_ms: u64 = std::env::var("VERIF_CASE_STALL_S").ok().and_then(|v| v.parse::<u64>().ok()).unwrap_or(30) * 1000;
+    let mem_cap: u64 = std::env::var("VERIF_MEM_CAP_MB").ok().and_then(|v| v.parse::<u64>().ok()).unwrap_or(6_000) * 1_000_000;
     std::thread::Builder::new()
         .name("watchdog".into())
         .spawn(move || loop {
-            std::thread::sleep(std::time::Duration::from_millis(500));
+            std::thread::sleep(std::time::Duration::from_millis(200));
             let now = wd_now();
+            // a guarded case that has not returned for a long time, or memory running away while guarded cases are in flight
+            let mut oldest: Option<(usize, u64)> = None;
+            for (i, s) in SLOTS.iter().enumerate() {
+                if s.len.load(Ordering::Acquire) != 0 {
+                    let st = s.start_ms.load(Ordering::Relaxed);
+                    if oldest.map(|o| st < o.1).unwrap_or(true) {
+                        oldest = Some((i, st));
+                    }
+                }
+            }
+            if let Some((i, st)) = oldest {
+                if now.saturating_sub(st) > case_stall_ms {
+                    suspect(&id, &tier, i, "no-return");
+                } else if now.saturating_sub(st) > 1000 && rss_bytes() > mem_cap {
+                    suspect(&id, &tier, i, "memory-runs-away");
+                }
+            }
             let last = WD_LAST.load(Ordering::Relaxed);
             if now > total_budget_s * 1000 {
                 println!("INCONCLUSIVE property={id} reason=total-time-budget-exceeded ({total_budget_s}s)");
